@@ -197,7 +197,9 @@ func newCSWorld(seed int64, k int, extraAccessories int) (*csWorld, error) {
 		}
 		svc.AddCharacteristic(c)
 		cl := &csCell{name: e.name, obj: obj, c: c}
-		c.OnValueUpdateFromConn(func(conn netConn, ch *characteristic.Characteristic, n, o interface{}) { cl.cbVal, cl.cbN = n, cl.cbN+1 })
+		c.OnValueUpdateFromConn(func(conn netConn, ch *characteristic.Characteristic, n, o interface{}) {
+			cl.cbVal, cl.cbN = n, cl.cbN+1
+		})
 		w.cells = append(w.cells, cl)
 	}
 	for i := 0; i < extraAccessories; i++ {
